@@ -39,8 +39,14 @@
 //!   status, a link must approach fair share. **3x hysteresis ratio**
 //!   between enter and leave keeps marginal links from flapping.
 
+#[cfg(not(feature = "verif-model"))]
 use std::collections::HashMap;
 
+// verif-model (bounded-model-checking build only, OFF by default): the same
+// per-link memory kept in a small array map, because std's hashbrown table
+// does not get through the model checker. The classifier code is unchanged.
+#[cfg(feature = "verif-model")]
+use self::verif_model::HashMap;
 use crate::connection::SrtlaConnection;
 
 /// Cap on `target_best_delay_ms` and `target_safe_delay_ms`.
@@ -513,5 +519,71 @@ mod tests {
         let result = filter.classify(&[]);
         assert_eq!(result.selected_delay_ms, 0);
         assert!(result.per_link.is_empty());
+    }
+}
+
+/// Verification container seam (feature `verif-model`, OFF by default): a
+/// four-entry association list offering the `HashMap` surface the classifier
+/// uses (`with_capacity`, `get`, `insert`, `clear`, `Default`).
+#[cfg(feature = "verif-model")]
+mod verif_model {
+    pub const CAP: usize = 4;
+
+    pub struct HashMap<K, V> {
+        used: [bool; CAP],
+        keys: [K; CAP],
+        vals: [V; CAP],
+    }
+
+    impl<K: Copy + Default + PartialEq, V: Copy + Default> Default for HashMap<K, V> {
+        fn default() -> Self {
+            Self {
+                used: [false; CAP],
+                keys: [K::default(); CAP],
+                vals: [V::default(); CAP],
+            }
+        }
+    }
+
+    impl<K: Copy + Default + PartialEq, V: Copy + Default> HashMap<K, V> {
+        pub fn with_capacity(_n: usize) -> Self {
+            Self::default()
+        }
+
+        pub fn get(&self, k: &K) -> Option<&V> {
+            let mut i = 0;
+            while i < CAP {
+                if self.used[i] && self.keys[i] == *k {
+                    return Some(&self.vals[i]);
+                }
+                i += 1;
+            }
+            None
+        }
+
+        pub fn insert(&mut self, k: K, v: V) -> Option<V> {
+            let mut free = CAP;
+            let mut i = 0;
+            while i < CAP {
+                if self.used[i] && self.keys[i] == k {
+                    let old = self.vals[i];
+                    self.vals[i] = v;
+                    return Some(old);
+                }
+                if !self.used[i] && free == CAP {
+                    free = i;
+                }
+                i += 1;
+            }
+            assert!(free < CAP, "verif-model map capacity exceeded");
+            self.used[free] = true;
+            self.keys[free] = k;
+            self.vals[free] = v;
+            None
+        }
+
+        pub fn clear(&mut self) {
+            self.used = [false; CAP];
+        }
     }
 }
